@@ -19,7 +19,7 @@ CHECKS = {
             "the generated rule handlers cannot swallow (or the parse is gated on the syntax-error count), no except handler "
             "for a pipeline error type finishes without raising, output is produced only after process() returned, the entry "
             "rule is EOF-anchored, exit statuses are non-zero. Decides the escalation structure, not which inputs the lexer rejects "
-            "(that is C05's token-language rule). Also: listeners are attached before any token is pulled, and process() cannot return before the entry-rule parse (must-pass-through); statements are followed through private helpers.", "DESIGN.md 5/C06"),
+            "(that is C05's token-language rule). Also: listeners are attached before any token is pulled, and process() cannot return before the entry-rule parse (must-pass-through); statements are followed through private helpers. Round 3: no break/continue/return inside finally; super() delegation of listeners is followed.", "DESIGN.md 5/C06"),
     "C13": ("write-site census + guard dominance + path-term evaluation + loop/predicate rules on document()",
             "Structural: every file-system write site of the package is enumerated, dominated by 'output directory set' and rooted "
             "at it; the page path term is join(output, dirname(relpath), stem+'.rst') on every abstract path; recursion cut-off, "
@@ -48,7 +48,7 @@ CHECKS = {
             "All methods of rstwriter.py: serialisation methods are pure; every physical line of Paragraph/Field/RSTList/"
             "DirectiveHeading/Option starts with the element's indent; indents are get_indents(level) with level+1 inside "
             "directives and 3 spaces per level; heading lines have length |title|*|char| and are rebuilt by the title setter; "
-            "Directive.to_text emits heading, options, blank line iff content, content. Also: element values and directive arguments are serialised exactly as given.", "DESIGN.md 5/C20"),
+            "Directive.to_text emits heading, options, blank line iff content, content. Also: element values and directive arguments are serialised exactly as given. Round 3: the heading is the first element and no cached copy can come back (clear keeps document[0]).", "DESIGN.md 5/C20"),
 }
 
 
@@ -65,25 +65,25 @@ CHECKS.update({
             "the entries appended, the pending-declaration slot and the consumed set behave as the property prescribes under default "
             "flags; the entry list is only appended to and rendered front to back; each kind renders as its directive; cmake_file and "
             "its alternative order are as the effect model assumes. Thorough adds abstract trace exploration (all well-nested event "
-            "sequences up to length 7) of the extracted table. Also: generic entries bind name and arguments as written and in order; values reach the text unmodified; command names are modelled as written in upper case so a missing case fold is a protocol violation.", "DESIGN.md 5/C02"),
+            "sequences up to length 7) of the extracted table. Also: generic entries bind name and arguments as written and in order; values reach the text unmodified; command names are modelled as written in upper case so a missing case fold is a protocol violation. Round 3: CTest signature binding, rendering cannot raise (bounded indexing), commands are rejected only for their own arity.", "DESIGN.md 5/C02"),
     "C03": ("definition-stack typestate from the effect table + binding terms + signature template terms",
             "Exhaustive over the abstraction and all flag valuations: one push per definition event on every non-error path, one pop per "
             "end command, cmake_parse_arguments marks index -1 only under non-emptiness and only a documenting element; name = arg0 "
             "unstripped, params = args[1:] through re.sub(kind's pattern), kwargs trigger in doc; '**kwargs' appended once, last, iff "
-            "has_kwargs. Regex semantics are not decided. Also: the signature reaches the text unmodified; no CLI default shadows the trigger/strip options; settings dataclasses are plain records.", "DESIGN.md 5/C03"),
+            "has_kwargs. Regex semantics are not decided. Also: the signature reaches the text unmodified; no CLI default shadows the trigger/strip options; settings dataclasses are plain records. Round 3: entry methods that modify the entry are called from the render loop only ('**kwargs' once).", "DESIGN.md 5/C03"),
     "C04": ("ATN action/language analysis of skipped tokens, position-taint lint, case-fold dominance, uniform-indent analysis",
             "Structural necessary conditions: exactly the four trivia rules end in `skip` on every accepting path and have the manual's "
             "languages; positions reach only logs/exceptions; every command-name read is case folded before use; the indent bound is one "
-            "value measured on the closing line. The CRLF clause is not decided. Structural part of the CRLF clause: the @module name (the one length-sensitive sink fed from doccomment text) is trimmed of CR.", "DESIGN.md 5/C04"),
+            "value measured on the closing line. The CRLF clause is not decided. Structural part of the CRLF clause: the @module name (the one length-sensitive sink fed from doccomment text) is trimmed of CR. Round 3: no LF-only multi-character matching anywhere in the package (structural part of the CRLF clause).", "DESIGN.md 5/C04"),
     "C05": ("regular-language equivalence of token/parser rules with cmake-language(7) by DFA product; generated-guard vs ATN FIRST sets; dispatch crash table",
             "Per-rule language equality (shortest counterexample printed) for identifier, unquoted, quoted, bracket (levels 0..3, "
             "thorough 0..5), escapes, comments, newline, space and the three parser rules; generated guards equal the ATN's FIRST sets; "
             "UTF-8 decode; runtime pin; no CRASH effect in the dispatch table (known finding: a command named generic_command). "
-            "Maximal-munch interplay and the CMake corpus are not decided. Also: every command-name read is case folded (CMake commands are case-insensitive) and processors apply no unguarded partial operation (re.match(...).group etc.) to argument text.", "DESIGN.md 5/C05"),
+            "Maximal-munch interplay and the CMake corpus are not decided. Also: every command-name read is case folded (CMake commands are case-insensitive) and processors apply no unguarded partial operation (re.match(...).group etc.) to argument text. Round 3: rendering is total; every raise of the listener is guarded by the current command's arguments; rejections depend on arity only.", "DESIGN.md 5/C05"),
     "C07": ("receiver-ownership analysis of render emissions + template/indent analysis of rstwriter",
             "Nesting clause only: every emission of every entry kind has a receiver that descends from the one directive the entry "
             "created on the incoming writer, members are rendered on the class directive, all nested element lines start with the "
-            "indent, the heading is element 0 and the module entry is first. docutils validity is not decided. Also: the cleaner and the module callback preserve relative indentation of doc lines, and no option is emitted in a loop.", "DESIGN.md 5/C07"),
+            "indent, the heading is element 0 and the module entry is first. docutils validity is not decided. Also: the cleaner and the module callback preserve relative indentation of doc lines, and no option is emitted in a loop. Round 3: doc text starts its own block; members attach to the innermost class; no line break is introduced into a field/argument/option value.", "DESIGN.md 5/C07"),
     "C08": ("include-flag independence on the effect table with symbolic flag atoms (covers all 2^10 valuations), flag/processor/YAML table agreement",
             "Exhaustive over the abstraction: effects of DOC(k) are equal under all flag valuations; UNDOC(k) with flag off only drops "
             "the entry/attachment and keeps the stacks balanced; no other flag is consulted. Known finding F8 (documented cpp_class with "
@@ -91,7 +91,7 @@ CHECKS.update({
     "C09": ("class-stack typestate from the effect table + binding terms + class render terms",
             "Exhaustive over the abstraction (default flags): push/pop/attach discipline, inner-class registration before push, claim of "
             "implementing definitions; field bindings of Method/Attribute/Class; render blocks use the same field in guard, heading "
-            "and loop, parameter i paired with type i, macro note iff is_macro, value option iff default. Thorough adds trace exploration. Also: :param:/:type: fields of a method are emitted independently; settings dataclasses are plain records.",
+            "and loop, parameter i paired with type i, macro note iff is_macro, value option iff default. Thorough adds trace exploration. Also: :param:/:type: fields of a method are emitted independently; settings dataclasses are plain records. Round 3: members are never rejected by comparing their class argument with remembered state; list/field lines indented.",
             "DESIGN.md 5/C09"),
     "C10": ("interval partition of the argument count + binding terms + enum exhaustiveness of the rendering",
             "All argument counts (interval reasoning over len(args)), all VarType members: UNSET/STRING/LIST classification, quote "
@@ -110,11 +110,11 @@ CHECKS.update({
             "Call order and tables: set_file < set_args(dots=True) < get(template), nothing set afterwards; dotted destinations are "
             "template paths with default None; keys and types agree three ways; exclude filters = all_contents() after validation; "
             "relative_to_config selects the Filename flavour; Settings built from the validated dict only. confuse's own precedence "
-            "and type rejection are trusted.", "DESIGN.md 5/C16"),
+            "and type rejection are trusted. Round 3: settings are deep-copied per input (the layered value is what every input sees).", "DESIGN.md 5/C16"),
     "C19": ("structural analysis of cmake/cminx.cmake (tokenizer + block matcher) and the package config template",
             "All statements of cminx_gen_rst: the executable runs unconditionally with COMMAND_ERROR_IS_FATAL, input and '-o' output "
             "quoted in place, options expanded unquoted, '-r' only under if(IS_DIRECTORY <input>) without else, ARGN forwarded "
-            "unfiltered, CMINX_EXECUTABLE defined before the include. CMake's list semantics for ';' are not decided. Also: no command rebinds the input/output formals.", "DESIGN.md 5/C19"),
+            "unfiltered, CMINX_EXECUTABLE defined before the include. CMake's list semantics for ';' are not decided. Also: no command rebinds the input/output formals. Round 3: execute_process carries no WORKING_DIRECTORY/TIMEOUT/INPUT_FILE; the options variable is evaluated on every path for directory and file inputs.", "DESIGN.md 5/C19"),
 })
 
 NOT_APPLICABLE = {}
